@@ -181,12 +181,13 @@ impl Inner {
         // SAFETY: Validity — `self.waiters` is an `UnsafeCell` field of `self` that
         // outlives this borrow. Aliasing — `Inner: !Send` excludes other threads, and
         // the borrow is held only while invoking `AwaiterSet::register`, which runs no
-        // user code.
+        // user code: it returns the displaced waker instead of dropping it.
         let waiters = unsafe { &mut *self.waiters.get() };
         // SAFETY: Single-threaded.
-        unsafe {
-            waiters.register(awaiter.as_mut(), waker);
-        }
+        let displaced = unsafe { waiters.register(awaiter.as_mut(), waker) };
+        // Dropping a waker runs user code that may call back into this event;
+        // the `waiters` borrow is not used past this point.
+        drop(displaced);
 
         Poll::Pending
     }
@@ -199,12 +200,14 @@ impl Inner {
             // SAFETY: Validity — `self.waiters` is an `UnsafeCell` field of `self` that
             // outlives this borrow. Aliasing — `Inner: !Send` excludes other threads,
             // and the borrow is held only while invoking `AwaiterSet::unregister`,
-            // which runs no user code.
+            // which runs no user code: it returns the removed waker instead of
+            // dropping it.
             let waiters = unsafe { &mut *self.waiters.get() };
             // SAFETY: Single-threaded.
-            unsafe {
-                waiters.unregister(awaiter.as_mut());
-            }
+            let waker = unsafe { waiters.unregister(awaiter.as_mut()) };
+            // Dropping a waker runs user code that may call back into this event;
+            // the `waiters` borrow is not used past this point.
+            drop(waker);
         }
     }
 }
